@@ -389,16 +389,16 @@ func c05Check(cs c05Case) core.Outcome {
 		l.space(cs.Spacing[2*i])
 		if ds := c05Dec(cs.Decs[2*i], serial+1); ds != nil {
 			serial++
+			apiPutAll(&nd.Start, ds...)
 			for _, d := range ds {
-				nd.Start.Append(d)
 				l.dec(d)
 			}
 		}
 		l.text(texts[i] + term)
 		if ds := c05Dec(cs.Decs[2*i+1], serial+1); ds != nil {
 			serial++
+			apiPutAll(&nd.End, ds...)
 			for _, d := range ds {
-				nd.End.Append(d)
 				l.dec(d)
 			}
 		}
